@@ -13,8 +13,9 @@
 //! (b) Cut points, in worker subprocesses (re-exec with `--worker`): a prepared server directory
 //!     is copied per cut; the worker aborts right before file-system mutation n of one
 //!     `update_rrdp_if_needed`; the surviving directory is read; a fresh runtime then publishes
-//!     and updates again. With `--rsynccut 1` the cuts extend over the rsync part of the write
-//!     (finding F11c shows up there).
+//!     and updates again. The cuts extend over the rsync part of the write (`--rsynccut 0` leaves
+//!     that part out); before commit e1f99c61 the cut between the second rename and the removal
+//!     of rsync/old left every later write failing (finding F11c, fixed).
 //! (c) `--f11b 1`: a worker with `rrdp_delta_files_max_nr = 0`.
 //!
 //! Abstraction (trusted): as in c10.rs for URIs / handles / contents; session ids, random path
@@ -926,7 +927,7 @@ fn details_of(v: &Value, it: &mut Interner) -> Vec<(String, u64)> {
 fn cut_scenario(out: &mut Out, it: &mut Interner, args: &Args, rng: &mut Rng) {
     let exe = std::env::current_exe().unwrap();
     let seed = args.seed;
-    let rsynccut = args.get_u64("rsynccut", 0) == 1;
+    let rsynccut = args.get_u64("rsynccut", 1) == 1;
     let stalenotif = args.get_u64("stalenotif", 0) == 1;
     let base = args.out.join("cut");
     let _ = std::fs::remove_dir_all(&base);
@@ -1066,7 +1067,7 @@ fn run(args: &Args) -> i32 {
         "evaluations": out.w.total, "distinct_nontrivial": out.distinct.len(),
         "rule": "histories on real RepositoryManager instances with a disk repository directory: each history starts with a session reset and a publication that includes one large object (in 25 % of the histories every object is small so that the size rule of delta retention bites), then 11 (thorough 22) random requests: publish a valid delta of 1-4 elements for alice / bob / a/b (44 %), update_rrdp_if_needed (40 %), two publications before the next update (5 %), session reset (4 %), remove (4 %) / create (3 %) a publisher; host names re-spelled in 15 % of the elements; one retention configuration per history from {min_nr 0,1,5} x {max_nr 1,2,50} x {min_seconds 0,1,huge} x {max_seconds 0,1,huge} (quick: seeded sample of 14 + the defaults + three fixed ones incl. archive mode; thorough: all 81), histories with a one-second limit sleep once across it and keep delta ages away from it. Cases: one per update/reset transition (stored RepositoryContent before/after), one per repository write for the RRDP files and one for the rsync tree (directory tree before/after, parsed files, recorded mutation trace, simulated clients at every earlier serial of the session, get_publisher_details), and for EVERY cut index of one update a crash in a worker subprocess (tree after the crash) plus the next write by a fresh runtime (publish+update / session reset / write_repository in turn). Non-trivial = every file case and every transition that changes the state; distinct = distinct case terms",
         "case_kind_distribution": out.kinds, "config_distribution": cfg_hist, "op_distribution": out.stats,
-        "strict_max_nr": strict, "rsync_cuts": args.get_u64("rsynccut", 0) == 1, "f11b_replay": f11b,
+        "strict_max_nr": strict, "rsync_cuts": args.get_u64("rsynccut", 1) == 1, "f11b_replay": f11b,
         "samples": out.samples, "impl_failures": out.impl_failures,
     }));
     println!("c11: {} cases ({:?}) from {} histories; impl failures {}", out.w.total, out.kinds, hist, n_fail);
